@@ -630,14 +630,26 @@ def c05_object_pool():
     def untyped():
         return Element(properties={"a": Property(String(default="ud")), "b_c": Property(Integer(default=4), source="b-c"),
                                    "n": Property(Number(default=1))})
-    return [plain, renamed, nested, clsdefault, untyped]
+    def overlapped():
+        # patternProperties whose patterns also match declared (defaulted, renamed) property names
+        class P(Object, patternProperties={"^s": Element(), "s$": Element(maxLength=10), "^cl": Element()}):
+            s = Property(String(default="dflt"))
+            ss = Property(Integer(default=3))
+            class_ = Property(String(default="k"), source="class")
+            other = Property(String(default="o"))
+        return P
+
+    def overlapped_untyped():
+        return Element(properties={"s": Property(String(default="ud")), "n": Property(Integer(default="bad"))},
+                       patternProperties={"^s": Element(), "^n": Element(minimum=0)})
+    return [plain, renamed, nested, clsdefault, untyped, overlapped, overlapped_untyped]
 
 
 def c05_defaults(run):
     import itertools
     from statham.schema.constants import NotPassed
     from statham.schema.elements.meta import ObjectMeta
-    acc = Acc(run, "C05-defaults", "5 object schemas (class/untyped, renamed, nested, valid/invalid defaults) x all subsets of supplied properties (<= 64 per schema); every pool element called with no value")
+    acc = Acc(run, "C05-defaults", "7 object schemas (class/untyped, renamed, nested, valid/invalid defaults, patternProperties overlapping declared names) x all subsets of supplied properties (<= 64 per schema); every pool element called with no value")
     w = quiet()
     try:
         for mk in c05_object_pool():
